@@ -354,6 +354,24 @@ func BeforeLock(p any, mode int, site string) {
 	}
 	s.mu.Unlock()
 	s.park(g, site) // S grants the lock when it releases us
+	if s.free.Load() {
+		// woken by teardown rather than granted: continue under the free-run lock model
+		s.mu.Lock()
+		if g.waitLock == nil {
+			s.mu.Unlock()
+			return
+		}
+		if mode == W {
+			lm.announced--
+		}
+		adm := g.admitted
+		g.waitLock = nil
+		g.admitted = false
+		s.mu.Unlock()
+		if !adm {
+			s.freeLock(p, mode)
+		}
+	}
 }
 
 // BeforeUnlock is woven before x.Unlock()/x.RUnlock() (for the deferred form, as a defer
